@@ -30,3 +30,84 @@ PROPS["C11"] = {
         {"engine": "unit", "test": "TestC11Random", "quick": {"shards": 8, "checks": 1500, "timeout": 300}, "thorough": {"shards": 16, "checks": 20000, "timeout": 3000}},
     ],
 }
+
+_SIM_ASSUME = [
+    "pike's real middleware chain (built by the real server.Start) runs inside a testing/synctest bubble of go1.26.8; virtual clock; in-memory upstream RoundTripper installed through the exported Proxy field of the upstream entry",
+    "schedules are explored at the granularity of blocking operations plus the two yield points in httpCache.Get (hook); code inside pike's critical sections is atomic here",
+    "a waiter is parked between registering and waiting only while all earlier waiters of the key are parked there too, and such waiters are released together right after the fetch ends (a goroutine blocked on a mutex is not durably blocked in a bubble)",
+]
+
+
+def _sim(test, quick_checks, thorough_checks, qshards=16, tshards=16, timeout_q=400, timeout_t=3400):
+    return {"engine": "sim", "test": test,
+            "quick": {"shards": qshards, "checks": quick_checks, "timeout": timeout_q, "shrinktime": "15s"},
+            "thorough": {"shards": tshards, "checks": thorough_checks, "timeout": timeout_t, "shrinktime": "60s"}}
+
+
+PROPS["C01"] = {
+    "level": "exploration",
+    "rule": ("Scenario = 1-3 keys + op list (request with park mask / complete with outcome / advance clock / release parked / purge), drawn by rapid incl. directed "
+             "macros (burst, expiry between wake-up and resumption, waiter parked between registering and waiting, several epochs). Non-trivial = at least one "
+             "request waited on a fetch AND (a woken waiter was parked across an expiry/refetch/purge, OR a waiter was parked at get.registered when its fetch ended, OR >=2 expiry epochs). "
+             "Distinct by canonical scenario JSON."),
+    "assumptions": _SIM_ASSUME,
+    "jobs": [_sim("TestC01", 1500, 40000)],
+}
+PROPS["C02"] = {
+    "level": "exploration",
+    "rule": ("Scenario as C01 with fetch outcomes from {cacheable, uncacheable, 5xx, transport error, upstream body abort (= handler panic), hang until the location's proxy timeout}, "
+             "purges and a memory store. Oracle = quiescence invariant after every op + bubble deadlock detector + every request finished after the drain. "
+             "Non-trivial = a waiter of a failed/uncacheable fetch existed OR a waiter was parked between registering and waiting when its fetch ended."),
+    "assumptions": _SIM_ASSUME + ["a scenario that does not become quiescent within 90 s of real time (cases take milliseconds) is reported as a lock-involving deadlock"],
+    "jobs": [_sim("TestC02", 1500, 40000)],
+}
+PROPS["C03"] = {
+    "level": "exploration",
+    "rule": ("Scenario = method + status + generated upstream header set (Cache-Control grammar: directive subsets, order, letter case, separators, 1-3 header lines, numeric edge values; "
+             "Set-Cookie none/one/several/empty-first; Age valid/invalid; Expires/Last-Modified). r1 fetches, r2/r3 repeat. Oracle = reference predicate from the statement "
+             "(only-if always; if-direction on canonical inputs) + label truthfulness against the upstream log. Non-trivial = >=2 directives, non-lower-case, multi-line, or Set-Cookie/Age present. "
+             "Distinct by (method, header list, status)."),
+    "assumptions": _SIM_ASSUME[:1] + ["spellings of max-age/s-maxage other than lower case, malformed or overflowing numbers, invalid Age values and empty-only Set-Cookie lines are treated as left open by the statement (either outcome accepted) unless no reading yields a positive lifetime"],
+    "jobs": [_sim("TestC03", 4000, 150000)],
+}
+PROPS["C04"] = {
+    "level": "exploration",
+    "rule": ("Scenario = one key, lifetimes T in {1..10,60,3600,31536000}, upstream Age absent/0/0..T+2, timed histories with clock advances concentrated on k*T, T+-1s and sub-second offsets, "
+             "several refetch epochs. Oracle = interval automaton (served from cache iff elapsed < L, never at elapsed >= L+1, boundary second either; Age within 1s and <= T; version must be the latest fetch). "
+             "Non-trivial = a request inside the boundary second or an expired refetch, and at least one hit."),
+    "assumptions": _SIM_ASSUME,
+    "jobs": [_sim("TestC04", 2000, 60000)],
+}
+PROPS["C06"] = {
+    "level": "exploration",
+    "rule": ("Scenario = 4-40 adversarial keys (paths differing by one byte/trailing slash/case, query order, same URI on several hosts, GET/HEAD twins) on caches of size 8/16/24 so that shards collide and evict, "
+             "mixed request order, completions, purges. Oracle = every delivered response echoes the client's own (method, host, request-URI) and carries the serial of its own fetch or of the key's stored response. "
+             "Non-trivial = at least one eviction and at least one hit or waiter."),
+    "assumptions": _SIM_ASSUME + ["free-running concurrency on the same key sets is covered by the C20 workload under the race detector"],
+    "jobs": [_sim("TestC06", 1000, 30000)],
+}
+PROPS["C07"] = {
+    "level": "exploration",
+    "rule": ("Scenario = hit-for-pass D in {unset,-5,1,2,5,60,300}s, histories alternating cacheable/uncacheable/failed answers, bursts during the period left pending together, advances around D, D+-1s. "
+             "Oracle = during elapsed < D every request has its own upstream request pending at the next quiescent point (never queued, never a hit); at elapsed >= D+1 exactly one probes and the others wait. "
+             "Non-trivial = >=2 passes and >=1 probe after the period."),
+    "assumptions": _SIM_ASSUME,
+    "jobs": [_sim("TestC07", 1500, 40000)],
+}
+PROPS["C10"] = {
+    "level": "fault_enumeration",
+    "rule": ("Scenario = request histories (waiters, expiry, purge, LRU 8 or 1000) + per-call store fault scripts {not-found, error, truncated record, record with corrupted status, garbage} on get, error on set/delete. "
+             "Oracle = the C01/C04 automaton with the store invisible (a bad or missing record is a miss; permissive only where a record may legitimately survive). "
+             "Non-trivial = >=1 injected fault actually consumed by a store call, with a waiter or >=3 requests."),
+    "assumptions": _SIM_ASSUME + ["store delays are not simulated in the bubble (a goroutine sleeping inside a pike lock would wedge it)",
+                                  "records with a corrupted status field or random garbage make the key's model permissive: only completion and response correctness are demanded"],
+    "jobs": [_sim("TestC10", 1500, 40000)],
+}
+PROPS["C18"] = {
+    "level": "exploration",
+    "rule": ("Scenario = 2-4 keys, two servers bound to caches c1/c2 (70%), optional memory store, purges {c1, c2, all, unknown cache, absent key} racing fetches with 0-4 waiters. "
+             "Oracle = after a purge returned the next request must reach the upstream (or be answered by a fetch still in flight at purge time), the store holds no record, other caches/keys keep their hits, the purge returns at once. "
+             "Non-trivial = purge of a fresh entry followed by a request, or purge during a fetch with a waiter."),
+    "assumptions": _SIM_ASSUME,
+    "jobs": [_sim("TestC18", 1500, 40000)],
+}
